@@ -47,7 +47,13 @@ RULE = ("cases come from one PRNG seeded by VERIF_SEED plus fixed catalogues: in
         "(P2PK tapscripts, pushes across the 75/76/255/256/520/521 boundaries, empty script) and parsed from raw bytes; "
         "every leaf of every tree; every single-byte alteration of sampled control blocks and leaf scripts; control "
         "block byte strings of every length class (0, 1, 32, 33, 34, 64, 65, 33+32m, 33+32*128, 33+32*129). A case is "
-        "non-trivial when it involves at least one hash or curve operation; distinct = distinct request lines / predicate inputs")
+        "non-trivial when it involves at least one hash or curve operation; distinct = distinct request lines / predicate inputs. "
+        "Object-reuse histories: ONE TapBranch/TapLeaf object is used with 2-3 internal keys of mixed parity in turn (and the "
+        "first one again), every query (hash, leaves, external_pubkey, control_block for every leaf with the tree's own and "
+        "with separately built equal leaf objects, serialize, parse, merkle_root / external_pubkey on the parsed block, "
+        "p2tr script and address) is issued at least twice, objects obtained under earlier keys are queried again after the "
+        "key has changed; every answer is compared with the model evaluated on the CURRENT arguments, and the parsed block "
+        "must recompute the output key and parity that freshly built objects give for the current key")
 CLAUSES = {
     "output key = even(P) + H_TapTweak(x(P) || root) * G": "proved (tweaked_key_formula, tweaked_key_infinity, "
         "external_pubkey_formula, even_point_even)",
@@ -67,6 +73,9 @@ CLAUSES = {
         "tamper_control_block_collision): an accepted (control block, script) is a genuine opening of a leaf occurrence of "
         "the committed tree or exhibits a collision of H_TapLeaf / H_TapBranch / between them / of the tweak map; a byte "
         "string other than the library's block accepted with the same script exhibits a collision",
+    "object state": "proved (leaves_memo_transparent, leaves_memo_history): the `_leaves` memo of TapBranch — the only cache in "
+        "taproot.py — modelled as explicit state (MTree) is transparent under its invariant, which fresh objects satisfy; that "
+        "nothing else is kept on tree / control-block objects is checked by the object-reuse histories",
     "P2TR script, witness accessors, TapBranch.combine, locktime/sequence commands": "model tied to the code by correspondence",
 }
 TRUSTED = ["the tagged hashes are arbitrary functions in every theorem (fields of `Hashes`); the driver instantiates them "
@@ -87,6 +96,23 @@ ASSUMPTIONS = ["H_TapLeaf and H_TapBranch return 32-byte strings — hypothesis 
 
 class UnknownOp(Exception):
     pass
+
+
+def par_batch(driver, lines, workers=16):
+    """like common.batch_parallel, but splits small batches too: a request here costs up to a second of curve
+    arithmetic in the driver, so even a few dozen lines are worth several driver processes (order preserved)"""
+    lines = list(lines)
+    if len(lines) < 2 or workers <= 1:
+        return driver.batch(lines)
+    from concurrent.futures import ThreadPoolExecutor
+    k = min(workers, len(lines))
+    parts = [lines[i::k] for i in range(k)]          # interleaved: neighbouring (similar-cost) lines are spread out
+    with ThreadPoolExecutor(max_workers=k) as ex:
+        outs = list(ex.map(driver.batch, parts))
+    res = [None] * len(lines)
+    for i, o in enumerate(outs):
+        res[i::k] = o
+    return res
 
 
 N = 0xFFFFFFFFFFFFFFFFFFFFFFFFFFFFFFFEBAAEDCE6AF48A03BBFD25E8CD0364141
@@ -460,6 +486,170 @@ def p_cb_length(c):
     return not parsed, parsed, False
 
 
+# --------------------------------------------------------------------------------- object-reuse histories
+def history_steps(rng, n_leaves, n_keys):
+    """a sequence of queries on ONE tree object: the internal keys are visited in turn (and the first one again at the
+    end), every query is issued at least twice, control blocks / parsed control blocks obtained under earlier keys are
+    queried again after the key has changed, and the order inside a visit is shuffled"""
+    steps = [["hash"], ["leaves"]]
+    visits = list(range(n_keys)) + [0]
+    seen = []
+    for j in visits:
+        block = [["ext", j], ["p2tr", j]]
+        for i in rng.sample(range(n_leaves), n_leaves):
+            block += [["cb", j, i, rng.randrange(2)], ["ser", j, i], ["parse", j, i], ["pcb_ext", j, i],
+                      ["pcb_root", j, i], ["accepts", j, i]]
+            if rng.random() < 0.5:
+                block += [["pcb_ext", j, i], ["cb", j, i, rng.randrange(2)]]
+        # queries on objects obtained under earlier keys, now that the tree has been used with another key
+        for (pj, pi) in rng.sample(seen, min(len(seen), 2)):
+            block += [["pcb_ext", pj, pi], ["ser", pj, pi], ["accepts", pj, pi]]
+        block += [["ext", j], ["addr", j], ["hash"], ["path", rng.randrange(n_leaves)]]
+        head, tail = block[:1], block[1:]
+        # keep each object's producer before its consumers: shuffle only whole per-leaf groups
+        steps += head + tail
+        if rng.random() < 0.5:
+            steps += [["ext", visits[0]], ["ext", j]]
+        seen += [(j, i) for i in range(n_leaves)]
+    return steps
+
+
+def history_c12(case):
+    """run the steps on persistent objects; returns [(kind, request line for the model, implementation answer)]"""
+    from buidl.ecc import S256Point
+    from buidl.script import address_to_script_pubkey
+    from buidl.taproot import ControlBlock
+
+    spec = case["tree"]
+    tree = build_tree(spec)
+    tt = tok_tree(spec)
+    lspecs = leaves_of(spec)
+    inner = tree.leaves()                                   # the leaf objects inside the tree
+    fresh = [build_tree(("L", l)) for l in lspecs]          # equal leaves built separately
+    keys = [S256Point(k[1], k[2]) for k in case["keys"]]
+    ptoks = [f"pt {k[1]} {k[2]}" for k in case["keys"]]
+    cbs, pcbs, qx = {}, {}, {}
+    out = []
+
+    def emit(kind, line, fn):
+        try:
+            with contextlib.redirect_stdout(io.StringIO()):
+                a = fn()
+        except Exception:
+            a = REJECT
+        out.append((kind, line, a))
+
+    for st in case["steps"]:
+        op = st[0]
+        if op == "hash":
+            emit("tree_hash", f"tree_hash {tt}", lambda: xb(tree.hash()))
+        elif op == "leaves":
+            emit("tree_leaves", f"tree_leaves {tt}",
+                 lambda: " ".join([str(len(tree.leaves()))] + [fmt_leaf(l) for l in tree.leaves()]))
+        elif op == "path":
+            i = st[1]
+            def f(i=i):
+                pth = tree.path_hashes(inner[i])
+                return REJECT if pth is None else blist(pth)
+            emit("path_hashes", f"path_hashes {tt} {tok_leaf(lspecs[i])}", f)
+        elif op == "ext":
+            j = st[1]
+            emit("external_pubkey", f"external_pubkey {tt} {ptoks[j]}", lambda j=j: tok_pt_par(tree.external_pubkey(keys[j])))
+        elif op == "p2tr":
+            j = st[1]
+            root = tree.hash()
+            emit("p2tr", f"p2tr {ptoks[j]} {xb(root)}", lambda j=j: xb(keys[j].p2tr_script(root).raw_serialize()))
+        elif op == "addr":
+            j = st[1]
+            root = tree.hash()
+            emit("p2tr_address", f"p2tr {ptoks[j]} {xb(root)}",
+                 lambda j=j: xb(address_to_script_pubkey(keys[j].p2tr_address(root)).raw_serialize()))
+        elif op == "cb":
+            j, i, use_fresh = st[1], st[2], st[3]
+            def f(j=j, i=i, use_fresh=use_fresh):
+                cb = tree.control_block(keys[j], fresh[i] if use_fresh else inner[i])
+                if cb is None:
+                    return REJECT
+                cbs[(j, i)] = cb
+                return f"{fmt_cb(cb)} {xb(cb.serialize())}"
+            emit("control_block", f"control_block {tt} {ptoks[j]} + {tok_leaf(lspecs[i])}", f)
+        elif (st[1], st[2]) not in cbs:
+            continue
+        elif op == "ser":
+            cb = cbs[(st[1], st[2])]
+            emit("cb_ser", f"cb_ser {cb.tapleaf_version} {cb.parity} {tok_pt(cb.internal_pubkey)} {blist(cb.hashes)}",
+                 lambda cb=cb: xb(cb.serialize()))
+        elif op == "parse":
+            b = cbs[(st[1], st[2])].serialize()
+            def f(b=b, key=(st[1], st[2])):
+                pcbs[key] = ControlBlock.parse(b)
+                return fmt_cb(pcbs[key])
+            emit("cb_parse", f"cb_parse {xb(b)}", f)
+        elif (st[1], st[2]) not in pcbs:
+            continue
+        elif op == "pcb_ext":
+            key = (st[1], st[2])
+            b = cbs[key].serialize()
+            def f(key=key):
+                q = pcbs[key].external_pubkey(inner[key[1]].tap_script)
+                return f"{tok_pt(q)} {q.parity} {pcbs[key].parity}"
+            emit("cb_external", f"cb_external {xb(b)} {tok_script(lspecs[key[1]][1])}", f)
+        elif op == "pcb_root":
+            key = (st[1], st[2])
+            b = cbs[key].serialize()
+            emit("cb_root", f"cb_root {xb(b)} {tok_script(lspecs[key[1]][1])}",
+                 lambda key=key: xb(pcbs[key].merkle_root(fresh[key[1]].tap_script)))
+        elif op == "accepts":
+            # direct predicate: the parsed block recomputes the output key and parity of the CURRENT internal key,
+            # the expected key coming from freshly built objects (no shared state)
+            key = (st[1], st[2])
+            if st[1] not in qx:
+                qx[st[1]] = build_tree(spec).external_pubkey(S256Point(case["keys"][st[1]][1], case["keys"][st[1]][2])).xonly()
+            b = cbs[key].serialize()
+            def f(key=key):
+                e = pcbs[key].external_pubkey(inner[key[1]].tap_script)
+                return "1" if (e.parity == pcbs[key].parity and e.xonly() == qx[key[0]]) else REJECT
+            emit("cb_accepts", f"cb_accepts {xb(b)} {tok_script(lspecs[key[1]][1])} {xb(qx[st[1]])}", f)
+    return out
+
+
+def check_histories(ctx, drv, cases, run_one, label):
+    """implementation answers from persistent objects against the model evaluated on the current arguments"""
+    rec = ctx.rec
+    outs = pmap(run_one, cases, workers=ctx.workers, chunksize=1)
+    uniq = sorted({line for o in outs for _, line, _ in o})
+    answers = dict(zip(uniq, par_batch(drv, uniq, workers=ctx.workers)))
+    for case, o in zip(cases, outs):
+        rec.count(f"{label}:histories")
+        for step, (kind, line, im) in enumerate(o):
+            m = answers[line]
+            if rec.compare(f"{label}:{kind}", {"history": case, "step": step, "line": line}, im, m, determined=True,
+                           key=f"{id(case)}:{step}:{line[:200]}"):
+                rec.sample(f"{label}:{kind}", {"step": step, "request": line[:200], "answer": m[:200]}, limit=1)
+            else:
+                break    # later steps of a broken history are not informative
+
+
+def replay_history(ctx, drv_name, case, run_one):
+    hist = _untuple(case["history"])
+    o = run_one(hist)
+    step = case["step"]
+    if step >= len(o):
+        return False
+    kind, line, im = o[step]
+    return im != ctx.driver(drv_name).one(line)
+
+
+def _untuple(x):
+    if isinstance(x, list):
+        return tuple(_untuple(y) for y in x)
+    if isinstance(x, dict):
+        return {k: _untuple(v) for k, v in x.items()}
+    if isinstance(x, str) and x.startswith("x") and _ishex(x):
+        return unx(x)
+    return x
+
+
 PREDICATES = {"tweak_formula": p_tweak_formula, "priv_tweak": p_priv_tweak, "even_secret": p_even_secret,
               "sibling_order": p_sibling_order, "tree_leaves": p_tree_leaves, "cb_alter": p_cb_alter,
               "script_alter": p_script_alter, "cb_length": p_cb_length}
@@ -570,8 +760,11 @@ def run(ctx):
         """run model and implementation on what has been generated so far; False once the property has failed
         (the search for a failing input ends there: the remaining, more expensive sweeps are skipped)"""
         if lines:
-            model = batch_parallel(drv, [l for _, l, _ in lines], workers=ctx.workers)
-            impl = pmap(impl_line, [l for _, l, _ in lines], workers=ctx.workers)
+            from concurrent.futures import ThreadPoolExecutor
+            with ThreadPoolExecutor(max_workers=1) as ex:      # the model (native driver) runs while the real code does
+                fut = ex.submit(par_batch, drv, [l for _, l, _ in lines], ctx.workers)
+                impl = pmap(impl_line, [l for _, l, _ in lines], workers=ctx.workers, chunksize=4)
+                model = fut.result()
             for (kind, line, det), m, im in zip(lines, model, impl):
                 if rec.compare(kind, {"line": line}, im, m, determined=det, key=line[:300]):
                     rec.sample(kind, {"request": line[:300], "answer": m[:300]}, limit=1)
@@ -581,7 +774,7 @@ def run(ctx):
                     rec.count(f"cb:hashes={im.split(' ')[5] if im.split(' ')[2] == 'pt' else '?'}")
                     rec.count(f"cb:parity={im.split(' ')[1]}")
         if preds:
-            results = pmap(eval_pred, preds, workers=ctx.workers)
+            results = pmap(eval_pred, preds, workers=ctx.workers, chunksize=1)
             for (kind, case), (ok, got, want) in zip(preds, results):
                 if ok:
                     rec.ok(kind, repr(case)[:300])
@@ -669,9 +862,27 @@ def run(ctx):
         rec.count("treekey:even" if k[2] % 2 == 0 else "treekey:odd")
     rng.shuffle(trees)
     for ti, (spec, k) in enumerate(trees):
-        if ti == 20 and not flush():     # a first slice of every kind of case: stop here when the property already fails
-            rec.note("stopped after the first slice: failing input found")
-            return
+        if ti == 20:
+            if not flush():     # a first slice of every kind of case: stop here when the property already fails
+                rec.note("stopped after the first slice: failing input found")
+                return
+            # object-reuse histories: one tree object, several internal keys of mixed parity, repeated queries
+            hcases = []
+            for hi in range(ctx.n(10, 60)):
+                n = 1 + hi % 4
+                hspec = fill(rng, random_shape(rng, n), [(rng.choice([0xC0, 0xC0, 0xC2]), ("C", random_script(rng)))
+                                                         for _ in range(n)])
+                if any(len(tok_leaf(l)) > 300 for l in leaves_of(hspec)):
+                    continue
+                nk = 2 + hi % 2
+                hkeys = [pick_key(hi + a) for a in range(nk)]     # consecutive indices alternate the parity
+                hcases.append({"tree": hspec, "keys": hkeys, "steps": history_steps(rng, n, nk)})
+                rec.count(f"history:keys={nk}")
+                rec.count("history:parities=" + "".join(str(k[2] % 2) for k in hkeys))
+            check_histories(ctx, drv, hcases, history_c12, "history")
+            if rec.violations or rec.disagreements:
+                rec.note("stopped after the object-reuse histories: failing input found")
+                return
         tt = tok_tree(spec)
         add("tree_hash", f"tree_hash {tt}")
         add("external_pubkey", f"external_pubkey {tt} {ptok(k)}")
@@ -762,7 +973,7 @@ def run(ctx):
         if len(specs) >= budget:
             break
 
-    for (spec, k, leaf), (cbb, qx, raw) in zip(specs, pmap(_cb_of, specs, workers=ctx.workers)):
+    for (spec, k, leaf), (cbb, qx, raw) in zip(specs, pmap(_cb_of, specs, workers=ctx.workers, chunksize=1)):
         first = True
         for pos in range(len(cbb)):
             deltas = [1, 0x80, rng.randrange(1, 256)] if pos == 0 else [rng.choice([1, 0x80, rng.randrange(1, 256)])]
@@ -798,6 +1009,8 @@ def run(ctx):
 def replay(ctx, v):
     """re-execute one recorded violation exactly; True if it still violates"""
     case = v["case"]
+    if "history" in case:
+        return replay_history(ctx, "drv_c12", case, history_c12)
     if "line" in case:
         return impl_line(case["line"]) != ctx.driver("drv_c12").one(case["line"])
 
